@@ -138,6 +138,9 @@ func excludes(a, b Access) (string, bool) {
 }
 
 func runC09(p *Prog, r *Report) {
+	// R11: a connection count is given back on every exit, including a panicking handler (shared with C04.R3); R12: pool URL objects are not handed to code running outside the pool's lock (shared with C02.R5)
+	r.Borrow(p, runC04, map[string]string{"C04.R3": "C09.R11"}, nil)
+	r.Borrow(p, runC02, map[string]string{"C02.R5": "C09.R12"}, nil)
 	roots := c09RootTypes(p)
 	r.Floor("C09.R1", len(roots), 9, "root types (handlers / mutex owners in public packages)")
 	totalPaths := c09Races(p, r, "C09.R1", roots)
@@ -152,6 +155,7 @@ func runC09(p *Prog, r *Report) {
 	r.Floor("C09.R7", c09GetOrCreate(p, r, "C09.R7", roots), 2, "get-or-create insertions into shared maps")
 	limiterSerial(p, r, "C09.R6") // no update of a source's buckets is lost: get-or-create is one critical section
 	r.Floor("C09.R5", checkSnapshots(p, r, "C09.R5", nil), 4, "snapshot methods (Clone / Export) in memmetrics")
+	r.Floor("C09.R5", checkNoLiveHandOut(p, r, "C09.R5"), 3, "exported memmetrics methods returning a statistics object")
 }
 
 func lockOpsOf(p *Prog, roots []*types.Named) int {
@@ -391,6 +395,7 @@ func modeWord(m string) string {
 
 func mutantsC09() []Mutant {
 	return []Mutant{
+		{Name: "merged-returns-live-bucket", File: "memmetrics/histogram.go", Old: "func (r *RollingHDRHistogram) Merged() (*HDRHistogram, error) {\n", New: "func (r *RollingHDRHistogram) Merged() (*HDRHistogram, error) {\n\tif len(r.buckets) == 1 {\n\t\treturn r.buckets[0], nil\n\t}\n", Expect: "C09.R5"},
 		{Name: "connlimit-release-unlocked", File: "connlimit/connlimit.go", Old: "func (cl *ConnLimiter) release(token string, amount int64) {\n\tcl.mutex.Lock()\n\tdefer cl.mutex.Unlock()\n", New: "func (cl *ConnLimiter) release(token string, amount int64) {\n", Expect: "C09.R1"},
 		{Name: "rebalancer-servers-unlocked", File: "roundrobin/rebalancer.go", Old: "func (rb *Rebalancer) recordMetrics(u *url.URL, code int, latency time.Duration) {\n\trb.mtx.Lock()\n\tdefer rb.mtx.Unlock()\n", New: "func (rb *Rebalancer) recordMetrics(u *url.URL, code int, latency time.Duration) {\n", Expect: "C09.R1"},
 		{Name: "rtmetrics-record-unlocked", File: "memmetrics/roundtrip.go", Old: "\tm.countersLock.Lock()\n\tm.total.Inc(1)", New: "\tm.total.Inc(1)", More: []Edit{{"memmetrics/roundtrip.go", "\t\tm.netErrors.Inc(1)\n\t}\n\tm.countersLock.Unlock()\n", "\t\tm.netErrors.Inc(1)\n\t}\n"}}, Expect: "C09.R1"},
